@@ -34,7 +34,7 @@ from lib import vk
 
 PKG = "cmd/zoekt-sourcegraph-indexserver"
 FILES = ["sys_zoekt_test.go"]
-NWARM = 9          # warm starts defined in ZoektSeq.tla (Warm)
+NWARM = 10         # warm starts defined in ZoektSeq.tla (Warm)
 PROCS = 8
 
 
